@@ -25,7 +25,15 @@ check('C06', 'exhaustive small-alphabet enumeration + Hypothesis strings against
       'Trusts vf/oracle/emphasis.py (validated at start-up on the >100 eligible spec emphasis examples) and unicodedata.',
       'DESIGN.md 5/C06')
 
+check('C12', 'Hypothesis-generated inputs under four token sets; shape invariants on the object graph, utils.traverse and AST JSON compared with an own walk',
+      'hypothesis-sharded',
+      'For sampled inputs from all pools, under the Html/Markdown/LaTeX/XWiki20 token sets, the parsed object graph is walked by own code: '
+      'acyclic, parent links, documented child kinds, attribute ranges, list start vs first marker; traverse() (plain, include_source, klass, '
+      'depth) and the AstRenderer JSON must describe exactly that walk.',
+      'Sampling only. The walk trusts .children / Table.header as the definition of the tree.',
+      'DESIGN.md 5/C12')
+
 _PENDING = 'check not built yet in this revision (work in progress; technique applies, see DESIGN.md section 5)'
-for _p in ['C03', 'C04', 'C05', 'C07', 'C08', 'C09', 'C10', 'C11', 'C12', 'C13', 'C14', 'C15',
+for _p in ['C03', 'C04', 'C05', 'C07', 'C08', 'C09', 'C10', 'C11', 'C13', 'C14', 'C15',
            'C16', 'C17', 'C18', 'C19']:
     NOT_YET[_p] = _PENDING
